@@ -420,10 +420,21 @@ func (m *Muxer) sender() {
 		}
 	}
 
-	// if we broke out of the loop, consume all packets so tubes can still close
-	for range m.sendQueue {
-	}
-	for range m.prioritySendQueue {
+	// if we broke out of the loop, consume all packets so tubes can still close.
+	// Both queues are drained together: a tube may be blocked handing a frame to
+	// either of them while it holds the lock Stop needs to close it.
+	sendQueue, prioritySendQueue := m.sendQueue, m.prioritySendQueue
+	for sendQueue != nil || prioritySendQueue != nil {
+		select {
+		case _, open := <-sendQueue:
+			if !open {
+				sendQueue = nil
+			}
+		case _, open := <-prioritySendQueue:
+			if !open {
+				prioritySendQueue = nil
+			}
+		}
 	}
 
 	m.log.WithField("error", err).Debug("muxer sender stopped")
